@@ -222,13 +222,21 @@ func (m *Machine) intercept(fn *ssa.Function, args []Val, caller *frame, site ss
 	case "fmt.Fprintf":
 		return func() Val {
 			s := m.format(args[1], args[2].(SliceV))
-			m.output(m.writerName(args[0])+" fmt.Fprintf", s, args[2].(SliceV))
+			if wn := m.writerName(args[0]); wn != "writer" {
+				m.output(wn+" fmt.Fprintf", s, args[2].(SliceV))
+			} else {
+				m.writeTo(args[0].(Iface), s, caller)
+			}
 			return TupleV{bv64(s.Len()), Iface{}}
 		}
 	case "fmt.Fprintln", "fmt.Fprint":
 		return func() Val {
 			s := m.formatPlain(args[1].(SliceV), name == "fmt.Fprintln")
-			m.output(m.writerName(args[0])+" "+name, s, args[1].(SliceV))
+			if wn := m.writerName(args[0]); wn != "writer" {
+				m.output(wn+" "+name, s, args[1].(SliceV))
+			} else {
+				m.writeTo(args[0].(Iface), s, caller)
+			}
 			return TupleV{bv64(s.Len()), Iface{}}
 		}
 	case "log.Println", "log.Print":
@@ -272,6 +280,24 @@ func (m *Machine) intercept(fn *ssa.Function, args []Val, caller *frame, site ss
 				ev.Str = s
 				if s.Conc() {
 					ev.Text = s.S
+				}
+			}
+			if sl, ok := args[1].(SliceV); ok {
+				bs := make([]*Term, sl.Len)
+				okb := true
+				for i := range bs {
+					t, isT := sl.A.E[sl.Off+i].V.(*Term)
+					if !isT {
+						okb = false
+						break
+					}
+					bs[i] = t
+				}
+				if okb {
+					ev.Str = strFromBytes(bs, ev.Tainted)
+					if ev.Str.Conc() {
+						ev.Text = ev.Str.S
+					}
 				}
 			}
 			m.outputs = append(m.outputs, ev)
@@ -932,6 +958,30 @@ func (m *Machine) symbolicStringArg(i Iface) *StrV {
 	return nil
 }
 
+// writeTo hands formatted text to an io.Writer that is not a standard stream by
+// calling its Write method (e.g. a bytes.Buffer executed from its SSA).
+func (m *Machine) writeTo(w Iface, s *StrV, caller *frame) {
+	if w.T == nil {
+		m.rtPanic("write to nil io.Writer")
+	}
+	f := m.prog.lookupMethodByName(w.T, "Write")
+	if f == nil {
+		m.outputs = append(m.outputs, OutEvent{Sink: "writer " + typeName(w.T), Tainted: s.Tainted(), Str: s})
+		return
+	}
+	bs := s.Bytes()
+	o := m.newObj("formatted bytes")
+	a := &ArrObj{E: make([]*Cell, len(bs)), O: o}
+	for i, b := range bs {
+		a.E[i] = &Cell{V: b, O: o}
+	}
+	sl := SliceV{A: a, Len: len(bs), Cap: len(bs)}
+	if s.T {
+		m.taintedSlices = append(m.taintedSlices, a)
+	}
+	m.callFn(f, []Val{w.V, sl}, nil, caller, nil)
+}
+
 // writerName classifies an io.Writer argument: stdout, stderr or another writer.
 func (m *Machine) writerName(w Val) string {
 	if i, ok := w.(Iface); ok {
@@ -1071,6 +1121,22 @@ func (m *Machine) stringIntercept(fn *ssa.Function, name string, args []Val) han
 			}
 		case "unicode/utf8.RuneLen":
 			return func() Val { return bv64(utf8.RuneLen(rune(I(0)))) }
+		case "strconv.ParseFloat":
+			return func() Val {
+				f, err := strconv.ParseFloat(S(0), I(1))
+				if err != nil {
+					return TupleV{FloatV{0, 64}, m.makeError(err.Error())}
+				}
+				return TupleV{FloatV{f, 64}, Iface{}}
+			}
+		case "strconv.Atoi":
+			return func() Val {
+				n, err := strconv.Atoi(S(0))
+				if err != nil {
+					return TupleV{bv64(0), m.makeError(err.Error())}
+				}
+				return TupleV{bv64(n), Iface{}}
+			}
 		case "strconv.Itoa":
 			return func() Val { return str(fmt.Sprint(I(0))) }
 		}
